@@ -9,6 +9,8 @@ def model_of(ns, fn):
     if ns in ('Fq2', 'Fq4', 'Fq12'):
         if fn == 'frobenius_map':
             return None
+        if ns == 'Fq12' and fn == 'pow':
+            return '@Sm9.Fq12.pow_u128'
         return f'@Sm9.{ns}.{fn}'
     if ns in ('G1', 'G2'):
         F = 'Fq' if ns == 'G1' else 'Fq2'
@@ -172,7 +174,28 @@ def lib_proofs(ns):
     cases {aeven} <;> rfl'''
     return {f'{ns}.{k}': v for k, v in P.items()}
 
+POW_PROOF = '''
+  funext x e
+  unfold Sm9.Gen.Fq12.pow Sm9.Fq12.pow_u128
+  by_cases h0 : e = 0
+  · simp [h0]
+  · have h0' : (e == 0) = false := by simpa using h0
+    simp only [h0, h0', decide_false, Bool.false_eq_true, if_false]
+    rw [whileFuel_congr 128 _ (fun s => decide ((s.2 &&& 1) = 0)) _ (fun s => (s.1.squared, s.2 >>> 1))
+          (by rintro ⟨b, n⟩; rfl) (by rintro ⟨b, n⟩; rfl), powStrip_while]
+    generalize Fq12.powStrip 128 x e = st
+    obtain ⟨b, n⟩ := st
+    by_cases h1 : n = 1
+    · simp [h1]
+    · have h1' : (n == 1) = false := by simpa using h1
+      simp only [h1, h1', decide_false, Bool.false_eq_true, if_false]
+      rw [whileFuel_congr 128 _ (fun s => decide (s.2.2 > 1)) _
+            (fun s => (if decide (((s.2.2 >>> 1) &&& 1) = 1) then s.1 * s.2.1.squared else s.1, s.2.1.squared, s.2.2 >>> 1))
+            (by rintro ⟨a, b, n⟩; rfl) (by rintro ⟨a, b, n⟩; rfl)]
+      exact powAcc_while 128 b b n'''
+
 SPECIAL = {
+    'Fq12.pow': POW_PROOF,
     **lib_proofs('LibG1'), **lib_proofs('LibG2'),
     'Pairings.bit': 'funext n pos; exact bit_equiv n pos',
     'G2Prepared.from': FROM_PROOF,
